@@ -59,6 +59,10 @@ def base_scenarios(rng, n):
         if rng.random() < .3:
             op['init'] = op['exit'] = True
         out.append({'seed': rng.randint(0, 10 ** 6), 'pool': pool, 'ops': [op]})
+    # threads cannot be interrupted: a worker thread notices the interrupt before it starts its next task, also in the middle of a
+    # long chunk — the KeyboardInterrupt reaches the caller within about one task duration, not one chunk duration
+    out.append({'seed': rng.randint(0, 10 ** 6), 'pool': {'n_jobs': 2, 'start_method': 'threading'}, 'latency_bound': 1.0,
+                'ops': [{'op': rng.choice(['map', 'imap_unordered']), 'n': 40, 'chunk_size': 20, 'dur': {'kind': 'map', 'map': {}, 'default': 0.1}}]})
     return out
 
 
@@ -72,6 +76,10 @@ def judge(chk, sc, o):
     if 'injected' not in o:
         return
     last = o['ops'][-1]
+    if sc.get('latency_bound') and last.get('outcome') == 'raise' and last.get('t1') is not None and last['t1'] - o['injected']['t'] > sc['latency_bound']:
+        chk.violation('interrupt_within_bounded_time', case, {'sigint_at': o['injected']['t'], 'call_ended_at': last['t1']},
+                      'KeyboardInterrupt within %.1f virtual s of the signal (one task takes 0.1 s, one chunk 2 s)' % sc['latency_bound'],
+                      input_class='sigint_latency')
     if last.get('outcome') == 'raise':
         if (last.get('exc') or {}).get('type') != 'KeyboardInterrupt':
             chk.violation('keyboard_interrupt_or_completion', case, {'raised': last.get('exc'), 'injected': o['injected']},
